@@ -5,6 +5,7 @@ import (
 	"github.com/form3tech-oss/f1/v2/internal/trigger/constant"
 	"github.com/form3tech-oss/f1/v2/internal/trigger/staged"
 	"math"
+	"strconv"
 	"time"
 
 	"github.com/form3tech-oss/f1/v2/internal/trigger/api"
@@ -42,9 +43,12 @@ func init() {
 			for i := 0; i < 4; i++ {
 				cs = append(cs, core.MkCase("C13", "flagstwice", i, seed, map[string]int{"order": i}))
 			}
+			for i := 0; i < map[string]int{"quick": 4, "thorough": 24}[tier]; i++ {
+				cs = append(cs, core.MkCase("C13", "flagforms", i, seed, map[string]int{"i": i}))
+			}
 			return cs
 		},
-		Kinds:  map[string]core.RunFunc{"jitter": c13Run, "flagstwice": c13FlagsTwice},
+		Kinds:  map[string]core.RunFunc{"jitter": c13Run, "flagstwice": c13FlagsTwice, "flagforms": c13FlagForms},
 		Floors: map[string]int64{"seqs_nontrivial": 300, "ticks": 100000},
 	})
 }
@@ -283,6 +287,63 @@ func c13Run(c *core.Case, o *core.Outcome) {
 		o.MaxObs("max:observed_factor_min_below_one_permille", int64((1-minF)*1000))
 	}
 	o.MaxObs("max:worst_balance_over_bound_permille", int64(worst*1000))
+}
+
+// c13FlagForms: the jitter given on a command line in every spelling pflag accepts for a float flag - "--jitter 0",
+// "--jitter=0", "-j 0", "-j=2.5" ... - is the jitter applied: 0 is the identity, j percent keeps every tick within what j
+// percent and its carried remainder allow.
+func c13FlagForms(c *core.Case, o *core.Outcome) {
+	r := c.Rng("forms")
+	type bl struct {
+		name string
+		mk   func() api.Builder
+		args []string
+		want int
+	}
+	builders := []bl{
+		{"constant", constant.Rate, []string{"--rate", "1000/1s", "--distribution", "none"}, 1000},
+		{"staged", staged.Rate, []string{"--stages", "0s:700,1h:700", "--distribution", "none", "-f", "1s"}, 700},
+	}
+	for rep := 0; rep < 40 && o.Verdict == core.Held; rep++ {
+		b := builders[r.IntN(len(builders))]
+		j := pick(r, 0.0, 0.0, 2, 2.5, 5, 20)
+		js := strconv.FormatFloat(j, 'f', -1, 64)
+		form := pick(r, []string{"--jitter", js}, []string{"--jitter=" + js}, []string{"-j", js}, []string{"-j=" + js}, []string{"-j" + js})
+		args := append(append([]string{}, b.args...), form...)
+		if r.IntN(2) == 0 {
+			args = append(append([]string{}, form...), b.args...)
+		}
+		desc := fmt.Sprintf("%s %v", b.name, args)
+		bb := b.mk()
+		if err := bb.Flags.Parse(args); err != nil {
+			o.Violate("flagforms-rejected:"+desc, "valid flags rejected: %v (%s)", err, desc)
+			return
+		}
+		if rest := bb.Flags.Args(); len(rest) != 0 {
+			o.Violate("flagforms-stray:"+desc, "the flag set left %v unparsed: a flag's value was taken for a positional argument (%s)", rest, desc)
+			return
+		}
+		tr, err := bb.New(bb.Flags)
+		if err != nil || tr == nil || tr.DryRun == nil {
+			o.Violate("flagforms-rejected:"+desc, "valid flags rejected: %v (%s)", err, desc)
+			return
+		}
+		jm, M := j/100, float64(b.want)
+		carried := (jm*M + 0.5) / (1 - jm)
+		bound := carried + jm*(M+carried) + 0.5 + 1e-6
+		base := time.Now()
+		for k := 0; k < 300; k++ {
+			v := tr.DryRun(base.Add(time.Duration(k) * time.Second))
+			if math.Abs(float64(v)-M) > bound {
+				o.Violate("flagforms:"+desc, "tick %d requests %d for a rate of %d; jitter %s%% and its carried remainder allow a difference of at most %.1f (%s)", k, v, b.want, js, bound, desc)
+				return
+			}
+		}
+		o.Events += 300
+		o.AddObs("ticks", 300)
+		o.Sig("flagforms:%s:j=%s:form=%d", b.name, js, len(form))
+	}
+	o.AddObs("seqs", 1)
 }
 
 // c13FlagsTwice: the trigger builders as the command line uses them, twice in one process: first a trigger with a non-zero
